@@ -436,6 +436,12 @@ def check_curves (c):
     mon ['numbering'] = 1
     if [p.idx for p in m.pulses] != list (range (len (m.pulses))):
         bad ('numbering', 'numbering-model', 'pulse indices of the model are not 0..N-1 in order')
+    # the number of a pulse relative to its object (the k of 'k-th pulse of the object with that tag') counts the
+    # object's own pulses in their order
+    for gx in m.geo:
+        if [p.n for p in gx.pulses] != list (range (len (gx.pulses))) or [p.idx for p in gx.pulses] != sorted (p.idx for p in gx.pulses):
+            bad ('numbering', 'numbering-relative', 'object %s: relative pulse numbers %s for its %d pulses' % (gx.tag, [p.n for p in gx.pulses] [:14], len (gx.pulses)))
+            break
     rep = report.parse (common.guarded (m.wires_as_mininec, 'wires_as_mininec'))
     nos = [int (r ['no']) for b in rep ['geometry'] for r in b ['rows']]
     if nos != list (range (1, len (m.pulses) + 1)):
@@ -542,6 +548,12 @@ def check (spec0):
     mon ['numbering'] = 1
     if [p.idx for p in m.pulses] != list (range (len (m.pulses))):
         bad ('numbering', 'numbering-model', 'pulse indices of the model are not 0..N-1 in order')
+    # the number of a pulse relative to its object (the k of 'k-th pulse of the object with that tag') counts the
+    # object's own pulses in their order
+    for gx in m.geo:
+        if [p.n for p in gx.pulses] != list (range (len (gx.pulses))) or [p.idx for p in gx.pulses] != sorted (p.idx for p in gx.pulses):
+            bad ('numbering', 'numbering-relative', 'object %s: relative pulse numbers %s for its %d pulses' % (gx.tag, [p.n for p in gx.pulses] [:14], len (gx.pulses)))
+            break
     txt = common.guarded (m.wires_as_mininec, 'wires_as_mininec')
     rep = report.parse (txt)
     tags_rep = [int (b ['tag']) for b in rep ['geometry']]
